@@ -15,7 +15,10 @@ import (
 
 // C03 — rendering never modifies bindings or the template; renders are independent.
 
-const c03IncName = "c03_included.liquid"
+const (
+	c03IncName    = "c03_included.liquid"
+	c03SubIncName = "partials/nested/c03_sub.liquid"
+)
 
 var c03Templates = []string{
 	"{% assign x = 'changed' %}{{ x }}{% assign a = 'gone' %}{{ a }}",
@@ -42,6 +45,11 @@ var c03Templates = []string{
 	// variables a render creates must not be visible to the next one
 	"{% assign leak = 'L' %}{% capture leak2 %}M{% endcapture %}{% for leak3 in a %}{% endfor %}",
 	"<{{ leak }}{{ leak2 }}{{ leak3 }}|{{ forloop.index }}|{{ i }}{{ q }}{{ c }}{{ only }}>",
+	// an include with a directory component, rendered twice by the same parsed template
+	`[{% include "` + c03SubIncName + `" %}]`,
+	// writing tags that sit only in clause bodies (else / when), the clause being taken
+	"{% if nothing %}x{% else %}{% assign leak4 = 'E' %}{% capture leak5 %}c{% endcapture %}{% for leak6 in a %}{% endfor %}{% endif %}{{ leak4 }}{{ leak5 }}",
+	"{% case x %}{% when 'never' %}n{% else %}{% assign x = 'changed' %}{% assign a = 'gone' %}{% endcase %}{{ x }}",
 	// thorough
 	"{{ ints | sort | join }}{{ strs | reverse | join }}{{ arr | sort | first }}{{ drop | sort | join }}{{ pst.A }}{{ st.C | sort | join }}",
 	"{{ ms | sort | join }}{{ rng | reverse | join }}{% for kv in m %}{{ kv[0] }}{% endfor %}{{ m.j | sort | join }}",
@@ -97,6 +105,9 @@ func c03Engine() *liquid.Engine {
 	e := liquid.NewEngine()
 	e.RegisterFilter("failing", func(v any) (any, error) { return nil, errors.New("failing filter") })
 	if _, err := e.ParseTemplateAndCache([]byte("{% assign x = 'inc' %}{{ x }}{{ a | sort | join }}{% for i in a %}{% cycle '1', '2' %}{% endfor %}"), c03IncName, 1); err != nil {
+		panic(explore.BaselineFailure{Msg: "harness: " + err.Error()})
+	}
+	if _, err := e.ParseTemplateAndCache([]byte("sub:{{ x }}{% assign x = 'in-sub' %}"), c03SubIncName, 1); err != nil {
 		panic(explore.BaselineFailure{Msg: "harness: " + err.Error()})
 	}
 	return e
@@ -214,7 +225,7 @@ func firstDiff(a, b string) string {
 }
 
 func c03Families(tier string) []explore.Family {
-	nT, nB, depth := 22, 3, 2
+	nT, nB, depth := 25, 3, 2
 	if tier == "thorough" {
 		nT, nB, depth = len(c03Templates), 4, 3
 	}
@@ -322,7 +333,7 @@ func init() {
 	explore.Register(&explore.Prop{
 		ID:    "C03",
 		Level: "model_checking",
-		Rule: "explicit-state search over histories of renders R(t,b) on one shared world (one engine, templates parsed once, binding environments built once and shared by reference): all histories of length <=2 over 22 templates x 3 environments (quick) / <=3 over 32 x 4 (thorough), each replayed on a fresh world, plus 40-step round-robin histories from every starting operation; plus a family that keeps the []byte returned by a render of 0..2^20 bytes (13 sizes around 64, 4096, 65536) and re-reads it after later renders; " +
+		Rule: "explicit-state search over histories of renders R(t,b) on one shared world (one engine, templates parsed once, binding environments built once and shared by reference): all histories of length <=2 over 25 templates x 3 environments (quick) / <=3 over 35 x 4 (thorough), each replayed on a fresh world, plus 40-step round-robin histories from every starting operation; plus a family that keeps the []byte returned by a render of 0..2^20 bytes (13 sizes around 64, 4096, 65536) and re-reads it after later renders; " +
 			"templates cover assign of a bound name, capture, shadowing loops, cycle groups, nested loops with break, every array filter on bound arrays (incl. aliased sub-slices and spare capacity), include, a render failing half-way, tablerow, typed slices, structs, pointers, Drops, MapSlice, ranges; " +
 			"invariants after every step: deep snapshot of every environment unchanged (slices up to capacity, unexported fields, aliasing), result equals the solo result on a fresh engine/parse/bindings; structural changes of render trees / engine configuration are recorded (not alarms: the statement defines template immutability through re-render equality); state = canonical world snapshot after the history; transition = one render",
 		Assumptions: []string{
